@@ -69,6 +69,23 @@ def BondLe (d : Nat) : Nat → List (List Int) → List (List Int) → Prop
   | Dl, q' :: qs', q :: qs => 0 < q'.length ∧ q'.length ≤ min (d * Dl) q.length ∧ BondLe d q'.length qs' qs
   | _, _, _ => False
 
+/-- last bond of the new chain is bounded by the last bond of the old chain -/
+theorem bondLe_last {d : Nat} : ∀ {Dl : Nat} {qs' qs : List (List Int)} (x y : List Int), BondLe d Dl qs' qs →
+    qs ≠ [] → ((x :: qs').getLast?.getD []).length ≤ ((y :: qs).getLast?.getD []).length
+  | _, [], [], _, _, _, h => absurd rfl h
+  | _, [], _ :: _, _, _, h, _ => by simp [BondLe] at h
+  | _, _ :: _, [], _, _, h, _ => by simp [BondLe] at h
+  | _, [q'], [q], _, _, h, _ => by
+    simp only [BondLe] at h
+    simp only [List.getLast?_cons_cons, List.getLast?_singleton, Option.getD_some]
+    omega
+  | _, [q'], _ :: _ :: _, _, _, h, _ => by simp [BondLe] at h
+  | _, _ :: _ :: _, [q], _, _, h, _ => by simp [BondLe] at h
+  | _, q' :: q2' :: qs', q :: q2 :: qs, x, y, h, _ => by
+    simp only [BondLe] at h
+    rw [List.getLast?_cons_cons, List.getLast?_cons_cons (a := y)]
+    exact bondLe_last q' q (by simp only [BondLe]; exact h.2.2) (by simp)
+
 /-- no exception on a well-formed chain whose last bond has dimension one -/
 theorem sweepLeft_ok (hshape : ∀ B, ShapeAt dqr B) {qd : List Int} (hd : 0 < qd.length) :
     ∀ {rest : List (T3 𝕜)} {A : T3 𝕜} {qL : List Int} {qRs : List (List Int)}, 0 < qL.length →
@@ -218,6 +235,31 @@ theorem SweepLeft.iso [StarRing 𝕜] (h : SweepLeft dqr qd A qL rest qRs As qs 
       rcases List.mem_cons.1 hB with rfl | hB
       · exact hloc.iso hshape hiso hA hd hL hR
       · exact ih hdims.pos (by simp only [wfChain_cons]; exact ⟨hN', hR', hrest⟩) B hB
+
+
+/-- the trailing factor is `1 × 1 × 1` when the last bond of the input has dimension one -/
+theorem SweepLeft.dims_one (h : SweepLeft dqr qd A qL rest qRs As qs T) (hshape : ∀ B, ShapeAt dqr B)
+    (hd : 0 < qd.length) (hL : 0 < qL.length) (hw : WfChain qd qL (A :: rest) qRs)
+    (hl : ((qL :: qRs).getLast?.getD []).length = 1) : T.d0 = 1 ∧ T.d1 = 1 ∧ T.d2 = 1 := by
+  obtain ⟨hw', -, w3, w4, w5, w6⟩ := h.wf hshape hd hL hw
+  have hqne : qRs ≠ [] := by
+    intro h; subst h; simp at hw
+  have hle := bondLe_last qL qL w6 hqne
+  rw [hl, ← w5] at hle
+  have hpos : 0 < T.d1 := by
+    rw [w5]
+    cases hqs : qs with
+    | nil => simp only [List.getLast?_singleton, Option.getD_some]; exact hL
+    | cons q qs' =>
+      have hall := ((forall₂_iff_wfChain qd As qL qs).2 hw').2.2
+      have : (qL :: qs).getLast?.getD [] ∈ qs := by
+        rw [hqs, List.getLast?_cons_cons]
+        have := List.getLast?_eq_some_getLast (l := q :: qs') (by simp)
+        rw [this]
+        exact List.getLast_mem _
+      rw [← hqs]
+      exact hall _ this
+  exact ⟨w3, by omega, w4⟩
 
 end props
 
